@@ -1030,7 +1030,8 @@ spifconf_parse(spif_charptr_t conf_name, const spif_charptr_t dir, const spif_ch
     for (; fstate_idx > 0;) {
         for (; fgets((char *) buff, CONFIG_BUFF, file_peek_fp());) {
             file_inc_line();
-            if (!strchr((char *) buff, '\n')) {
+            /* A last line without a newline is complete once the file has ended. */
+            if (!strchr((char *) buff, '\n') && !feof(file_peek_fp())) {
                 libast_print_error("Parse error in file %s, line %lu:  line too long\n",
                                    file_peek_path(), file_peek_line());
                 for (; fgets((char *) buff, CONFIG_BUFF, file_peek_fp())
